@@ -33,6 +33,10 @@ def _offset_sums(fn):
             tgt = norm(n.value)
             if tgt in ("memarray", "self._offset_to_expr"):
                 keys.append(n.slice)
+        if isinstance(n, ast.Call) and isinstance(n.func, ast.Attribute) and n.func.attr in ("get", "pop", "setdefault", "__contains__", "__getitem__") and n.args:
+            tgt = norm(n.func.value)
+            if tgt in ("memarray", "self._offset_to_expr"):
+                keys.append(n.args[0])
         for k in keys:
             out.append((n, k))
     return out
@@ -40,7 +44,7 @@ def _offset_sums(fn):
 
 def run(ck):
     m = ck.repo.mod(REL)
-    ck.rule("R1", "an offset + i key of a per-base byte map is always reduced with & mask", floor=8)
+    ck.rule("R1", "an offset + i key of a per-base byte map is always reduced with & mask", floor=5)
     ck.rule("R2", "writer and reader agree on byte order", floor=5)
     ck.rule("R3", "writing a cell's original content back removes the stored byte", floor=1)
     ck.rule("R4", "state export/import goes through the same read/write API and covers ids and memory", floor=4)
@@ -54,7 +58,7 @@ def run(ck):
         for name, fn in sorted(m.methods(cls).items()):
             res = Resolver(fn)
             for (n, k) in _offset_sums(fn):
-                ke = res.expand_node(k)
+                ke = res.expand_with_elements(k)
                 has_sum = any(isinstance(x, ast.BinOp) and isinstance(x.op, ast.Add) and "offset" in norm(x) for x in walk_local(ke))
                 if not has_sum:
                     continue
@@ -199,13 +203,19 @@ def byte_order_rules(ck, m, RID):
           "a byte that was never written must read as the 8-bit memory cell at base + ((%s + %s) & mask)" % (roff, ridx))
     # final extraction of each part: value[8*off : 8*(off + n)] (little endian)
     ok = False
-    for n in walk_body(r):
+    scopes = []                       # (3-tuple target, nodes in which the parts are consumed): for statements and comprehensions alike
+    for n in ast.walk(r):
         if isinstance(n, ast.For) and isinstance(n.target, ast.Tuple) and len(n.target.elts) == 3:
-            o_, n_, d_ = [norm(x) for x in n.target.elts]
-            want = canon(ast.parse("%s[%s * 8:(%s + %s) * 8]" % (d_, o_, o_, n_), mode="eval").body)
-            env2 = {}
-            for x in walk_local(ast.Module(body=n.body, type_ignores=[])):
-                if isinstance(x, ast.Assign) and isinstance(x.value, ast.Subscript) and isinstance(x.value.slice, ast.Slice) and canon(x.value) == want:
+            scopes.append((n.target, n.body))
+        if isinstance(n, (ast.ListComp, ast.GeneratorExp)) and len(n.generators) == 1 and isinstance(n.generators[0].target, ast.Tuple) \
+                and len(n.generators[0].target.elts) == 3:
+            scopes.append((n.generators[0].target, [n.elt]))
+    for tgt_, body_ in scopes:
+        o_, n_, d_ = [norm(x) for x in tgt_.elts]
+        want = canon(ast.parse("%s[%s * 8:(%s + %s) * 8]" % (d_, o_, o_, n_), mode="eval").body)
+        for b_ in body_:
+            for x in ast.walk(b_):
+                if isinstance(x, ast.Subscript) and isinstance(x.slice, ast.Slice) and canon(x) == want:
                     ok = True
     ck.ob(RID, "MemArray.read:slice", ok, m.where(r), "a part must be extracted as value[off*8:(off+n)*8] (little endian)")
     # merge of two adjacent integer parts
